@@ -215,8 +215,80 @@ def _bound_atoms(e, out, depth=0):
             _bound_atoms(x, out, depth + 1)
     for x in (e.args or []):
         _bound_atoms(x, out, depth + 1)
-    for x in (getattr(e, "alts", None) or []):
-        _bound_atoms(x, out, depth + 1)
+    alts = getattr(e, "alts", None) or []
+    if alts:
+        # a value chosen between alternatives (`let keys = if whole {all keys} else if wraps {..} else {..}`): it is bounded by an
+        # end only if EVERY alternative is
+        if _MULTI_HOOK and e.k == "multi":
+            out.update(_MULTI_HOOK[0](e.local, depth + 1))
+            return
+        common = None
+        for x in alts:
+            s_ = set()
+            _bound_atoms(x, s_, depth + 1)
+            common = s_ if common is None else (common & s_)
+        out.update(common or set())
+
+
+_MULTI_HOOK = []
+
+
+def _make_multi_hook(body):
+    """atoms of a multiply-assigned local, alternative by alternative: an alternative that is another local (`t`) counts with what
+    was added to that local afterwards (`t.extend(range(0..newpos))`)"""
+    grow = {}
+    pending = []
+    for bb, t in body.calls():
+        if t["f"].get("name") in ("extend", "append", "push", "extend_from_slice", "insert") and len(t["args"]) >= 2:
+            pending.append(t)
+    def _fill():
+      for t in pending:
+        if True:
+            q = t["args"][0].get("m") or t["args"][0].get("c")
+            if q is None:
+                continue
+            l = q["l"]
+            ds = body.defs().get(l, [])
+            if len(ds) == 1 and ds[0][2] == "rv" and ds[0][3]["k"] == "ref" and not ds[0][3]["p"]["p"]:
+                l = ds[0][3]["p"]["l"]
+            for a in t["args"][1:]:
+                s_ = set()
+                _bound_atoms(body.operand_expr(a), s_)
+                grow.setdefault(l, set()).update(s_)
+
+    def of_local(l, depth=0):
+        if pending and not grow.get("_filled"):
+            grow["_filled"] = True
+            _MULTI_HOOK[:] = [of_local]
+            _fill()
+        if depth > 30:
+            return set()
+        ds = body.defs().get(l, [])
+        res = None
+        for dbb, si, kind, payload in ds:
+            s_ = set()
+            if kind == "rv" and payload["k"] in ("bin", "un") and len(ds) > 1:
+                # an in-place update of the same variable (`newpos -= cap`): not an alternative origin of its own
+                ops_ = [payload.get("a"), payload.get("b")]
+                if any(isinstance(o_, dict) and ((o_.get("m") or o_.get("c") or {}).get("l") == l) for o_ in ops_):
+                    continue
+            if kind == "rv" and len(ds) > 1:
+                ex_ = body.rvalue_expr(payload)
+                if ex_ is not None and ex_.k in ("bin", "un") and any(x.k in ("local", "multi") and x.local == l for x in walk(ex_)):
+                    continue      # `newpos -= cap` (through the checked-arithmetic temporary): an in-place update
+            if kind == "rv" and payload["k"] == "use":
+                q = payload["a"].get("m") or payload["a"].get("c")
+                if q is not None and not q["p"]:
+                    s_ = of_local(q["l"], depth + 1)
+                else:
+                    _bound_atoms(body.rvalue_expr(payload), s_, depth + 1)
+            elif kind == "rv":
+                _bound_atoms(body.rvalue_expr(payload), s_, depth + 1)
+            else:
+                _bound_atoms(body.call_expr(dbb, payload), s_, depth + 1)
+            res = s_ if res is None else (res & s_)
+        return (res or set()) | grow.get(l, set())
+    return of_local
 
 
 def rule_r6(facts, col, rule_id="C02.R6"):
@@ -227,6 +299,7 @@ def rule_r6(facts, col, rule_id="C02.R6"):
         if body.kind == "closure" or body_role(facts, body) != "consume":
             continue
         ops = {}      # bb -> set of atoms
+        _MULTI_HOOK[:] = [_make_multi_hook(body)]
         for bb, t in body.calls():
             f = t["f"]
             r = f.get("resolved") or {}
@@ -256,6 +329,7 @@ def rule_r6(facts, col, rule_id="C02.R6"):
                     atoms = set()
                     _bound_atoms(body.rvalue_expr(s_["rv"]), atoms)
                     ops.setdefault(bb, set()).update(atoms)
+        _MULTI_HOOK[:] = []
         if not ops:
             continue
         rets = [b for b in body.reachable(0) if body.term(b)["k"] == "return"]
